@@ -117,6 +117,11 @@ def _one(args):
             continue     # H_0 = 0 is refused up front by the library (ValueError): not an accepted input
         if offset_after:
             hermitian.add_offset(inst)
+        if vtype == "sympy" and idx % len(VTYPES) == 1 and inst["k"] >= 2:
+            # the Hamiltonian as ONE sympy matrix in the perturbative symbols (mixed monomials x*y, x**2*y ...
+            # occur among the randomly chosen multi-orders): the library Taylor-expands it; the truth stays
+            # the instance's own coefficient matrices
+            inst["format"] = "sympy_matrix"
         # every third sympy instance has SYMBOLIC unperturbed levels and a symbolic coupling constant
         if vtype == "sympy" and idx % len(VTYPES) == 5 and inst["d"] <= 4 and not any(
                 epair_[1] != 0 for epair_ in map(hermitian.epair, inst["E"])):
